@@ -273,7 +273,7 @@ def fresh_seq(st, n, elem_shape, hint, measure=None):
 def seq_len(s):
     if isinstance(s, (tuple, list)):
         return len(s)
-    if type(s).__name__ == "SText":
+    if getattr(s, "is_text", False):
         return s.length
     if isinstance(s, (SSeq, SRange)):
         return s.length
@@ -295,7 +295,7 @@ def seq_get(s, i):
         st = cur()
         k = st.choose([V._cmp("==", i, j) for j in range(len(s))])
         return s[k]
-    if isinstance(s, (SSeq, SRange)) or type(s).__name__ == "SText":
+    if isinstance(s, (SSeq, SRange)) or getattr(s, "is_text", False):
         return s.get(i)
     raise Unsupported(f"index of {type(s).__name__}")
 
